@@ -1413,6 +1413,8 @@ func ExpandReturnCases(p *Prog, f *ssa.Function) []RetCase {
 				n := Normalize(cnd)
 				if a, isP := up(n.V); isP {
 					nc.Facts = append(nc.Facts, Cond{V: a, True: n.True, If: cnd.If})
+				} else {
+					nc.Facts = append(nc.Facts, cnd) // a fact about values of the helper's own frame
 				}
 			}
 			for _, v := range rc2.Vals {
